@@ -189,6 +189,26 @@ def run(repo: Repo, chk: Check, thorough: bool = False) -> None:
     st_ = trc.methods.get('starttag')
     if st_ is None or not any(isinstance(c_, ast.Constant) and isinstance(c_.value, str) and 'rst-' in c_.value for c_ in ast.walk(st_.node)):
         raise AnalysisError('R11.2: HTMLTranslator.starttag no longer prefixes ids with rst-')
+    # ids and hrefs must be prefixed by the SAME rule, or a reference and its target drift apart (`rst-rst-primer` vs `#rst-primer`): every place
+    # that adds the prefix does so under the "not already prefixed" test
+    adds = [n for g in (st_, trc.methods.get('footnote_backrefs')) if g is not None for n in ast.walk(g.node)
+            if isinstance(n, ast.JoinedStr) and any(isinstance(v, ast.Constant) and isinstance(v.value, str) and v.value.endswith('rst-') for v in n.values)]
+    if len(adds) < 3:
+        raise AnalysisError(f'R11.2: only {len(adds)} places add the rst- prefix in HTMLTranslator (4 confirmed)')
+    for a_ in adds:
+        guarded = False
+        for p_ in parents(a_):
+            if isinstance(p_, ast.IfExp) and any(isinstance(c_, ast.Call) and call_name(c_) == 'startswith' and c_.args and const_str(c_.args[0]) == 'rst-' for c_ in ast.walk(p_.test)):
+                guarded = True
+            if isinstance(p_, ast.If) and any(isinstance(c_, ast.Call) and call_name(c_) == 'startswith' and c_.args and const_str(c_.args[0]) == 'rst-' for c_ in ast.walk(p_.test)):
+                guarded = True
+            if isinstance(p_, (ast.ListComp, ast.GeneratorExp)) and any(isinstance(c_, ast.Call) and call_name(c_) == 'startswith' and c_.args and const_str(c_.args[0]) == 'rst-'
+                                                                         for g_ in p_.generators for i_ in g_.ifs for c_ in ast.walk(i_)):
+                guarded = True
+        chk.ob('R11.2', f'node2stan.HTMLTranslator :: `{norm(a_)[:30]}` is added only when it is not there yet', guarded,
+               'under `not ....startswith("rst-")`' if guarded else
+               'this place prefixes unconditionally while the others test `startswith("rst-")`: a section titled "RST primer" gets id="rst-rst-primer" but the '
+               'references to it say `#rst-primer`', f'pydoctor/node2stan.py:{a_.lineno}')
     for hook, what in sorted(DOCUTILS_RAW_HREF_HOOKS.items()):
         ov = trc.methods.get(hook)
         okh = ov is not None and any(isinstance(c_, ast.Constant) and isinstance(c_.value, str) and 'rst-' in c_.value for c_ in ast.walk(ov.node))
